@@ -1,5 +1,6 @@
 //! C12 — decoy digests are present when asked, inert, and indistinguishable.
 
+use crate::attack::sign_payload;
 use crate::ctx::*;
 use crate::flow::*;
 use crate::gen::*;
@@ -38,6 +39,15 @@ pub fn run(ctx: &mut Ctx, replay: Option<&str>) {
             if !f.sel.is_empty() {
                 flows.push(f);
                 ctx.count("stream.special_claim_set");
+            }
+        }
+        // credentials with nothing but the always-visible claims (and empty containers): the root object is an object like any other
+        for (k, claims) in [json!({"iss": "https://issuer.example", "exp": now() + 100000}), json!({"iss": "https://issuer.example", "iat": now() - 3, "exp": now() + 100000}),
+                            json!({"exp": now() + 100000, "iss": "https://issuer.example", "empty": {}, "none": []})].into_iter().enumerate() {
+            for st in [Strategy::All, Strategy::Top, Strategy::None, Strategy::Custom(vec![]), Strategy::Custom(vec!["$.nothing".into()])] {
+                flows.push(Flow { issue: IssueArgs { claims: claims.clone(), strategy: st, holder: None, decoy: true, fmt: if k % 2 == 0 { Fmt::Compact } else { Fmt::Json }, key: crate::keys::KeyId::IssuerEc, alg: None, queue: None },
+                                  sel: Default::default(), kb: None });
+                ctx.count("stream.only_always_visible_claims");
             }
         }
         // the holder's key arrives INSIDE the claims (a top-level cnf that the strategy leaves in clear, no holder key argument) and
@@ -277,6 +287,7 @@ pub fn run(ctx: &mut Ctx, replay: Option<&str>) {
     }
     if replay.is_none() {
         many_objects(ctx);
+        near_digest_decoys(ctx);
     }
     if let Some(f) = flows.last() {
         ctx.sample(f.json());
@@ -428,5 +439,61 @@ fn many_objects(ctx: &mut Ctx) {
             ctx.nontrivial(&case);
         }
         None => ctx.notes.push("long-lived issuer stream: the issuance sequence did not run".into()),
+    }
+}
+
+/// hand-signed credentials whose decoy digests differ from a real digest of the same credential in a few characters only (a
+/// shared prefix of 8 / 16 / 42 characters, a shared suffix, one character changed): they are different digests that match no
+/// disclosure, i.e. decoys — the verifier's result is that of the decoy-free credential
+fn near_digest_decoys(ctx: &mut Ctx) {
+    use crate::keys::KeyId;
+    let far = now() + 100000;
+    let d1 = b64_json(&json!(["c2FsdC1uZWFyLTE", "given_name", "Erika"]));
+    let d2 = b64_json(&json!(["c2FsdC1uZWFyLTI", "family_name", "Mustermann"]));
+    let d3 = b64_json(&json!(["c2FsdC1uZWFyLTM", "DE"]));
+    let (h1, h2, h3) = (hash(&d1), hash(&d2), hash(&d3));
+    let swap_last = |h: &str| format!("{}{}", &h[..h.len() - 1], if h.ends_with('A') { "Q" } else { "A" });
+    let near: Vec<(&str, String)> = vec![
+        ("first-8-shared", format!("{}{}", &h1[..8], &hash("decoy-a")[8..])), ("first-16-shared", format!("{}{}", &h2[..16], &hash("decoy-b")[16..])), ("first-42-shared", swap_last(&h1)),
+        ("last-35-shared", format!("{}{}", &hash("decoy-c")[..8], &h3[8..])), ("first-character-changed", format!("{}{}", if h2.starts_with('A') { "B" } else { "A" }, &h2[1..])),
+        ("case-changed", h3.chars().map(|c| if c.is_ascii_lowercase() { c.to_ascii_uppercase() } else { c.to_ascii_lowercase() }).collect::<String>()),
+    ];
+    let base = json!({"iss": "https://issuer.example", "exp": far, "_sd_alg": "sha-256", "_sd": [h1.clone(), h2.clone()], "nationalities": ["FR", {"...": h3.clone()}], "address": {"_sd": []}});
+    let free = verify(&VerifyArgs { input: Parts { jwt: sign_payload(&base, KeyId::IssuerEc), disclosures: vec![d1.clone(), d2.clone(), d3.clone()], kb: None }.compact(), fmt: Fmt::Compact, resolver: Resolver::always(KeyId::IssuerEc), aud: None, nonce: None });
+    ctx.impl_calls += 1;
+    for (k, (name, decoy)) in near.iter().enumerate() {
+        if decoy == &h1 || decoy == &h2 || decoy == &h3 {
+            continue;
+        }
+        for place in ["top-level-list", "nested-list", "array-placeholder", "all-three"] {
+            let mut p = base.clone();
+            if place == "top-level-list" || place == "all-three" {
+                p["_sd"].as_array_mut().unwrap().insert(k % 3, json!(decoy));
+            }
+            if place == "nested-list" || place == "all-three" {
+                p["address"]["_sd"].as_array_mut().unwrap().push(json!(swap_last(decoy)));
+            }
+            if place == "array-placeholder" || place == "all-three" {
+                p["nationalities"].as_array_mut().unwrap().push(json!({"...": format!("{}{}", &decoy[..20], &hash(place)[20..])}));
+            }
+            for fmt in [Fmt::Compact, Fmt::Json] {
+                let input = Parts { jwt: sign_payload(&p, KeyId::IssuerEc), disclosures: vec![d1.clone(), d2.clone(), d3.clone()], kb: None }.render(fmt);
+                let got = verify(&VerifyArgs { input: input.clone(), fmt, resolver: Resolver::always(KeyId::IssuerEc), aud: None, nonce: None });
+                ctx.impl_calls += 1;
+                ctx.evaluations += 1;
+                ctx.oracle_checks += 1;
+                ctx.count("case.near-digest-decoy");
+                let case = json!({"near_digest_decoy": {"kind": name, "place": place, "fmt": fmt.name(), "input": input}});
+                let same = match (&free.out, &got.out) {
+                    (Outcome::Ok(a), Outcome::Ok(b)) => a == b,
+                    _ => false,
+                };
+                if same {
+                    ctx.nontrivial(&case);
+                } else {
+                    ctx.violation("oracle", "verify", &format!("a decoy digest that resembles a real one ({}, {}) changes the verifier's result", name, place), case, got.out.describe(), free.out.describe());
+                }
+            }
+        }
     }
 }
